@@ -218,7 +218,19 @@ func (r *hRequest) contentType() string {
 func (r *hRequest) build(ctor int, rd io.Reader, withContentType bool) (*dhttp.HTTPRequest, error) {
 	var params []dhttp.Param
 	for _, kv := range r.Path {
+		if r.RefillParams {
+			params = append(params, dhttp.Param{Key: kv.Key, Value: "stale-" + kv.Text})
+			continue
+		}
 		params = append(params, dhttp.Param{Key: kv.Key, Value: kv.Text})
+	}
+	refill := func(req *dhttp.HTTPRequest, err error) (*dhttp.HTTPRequest, error) {
+		if err == nil && r.RefillParams {
+			for _, kv := range r.Path {
+				req.Params.Set(kv.Key, kv.Text)
+			}
+		}
+		return req, err
 	}
 	decorate := func(sr *stdhttp.Request) {
 		for _, kv := range r.Header {
@@ -238,14 +250,14 @@ func (r *hRequest) build(ctor int, rd io.Reader, withContentType bool) (*dhttp.H
 			return nil, fmt.Errorf("harness: net/http.NewRequest: %v", err)
 		}
 		decorate(sr)
-		return dhttp.NewHTTPRequestFromStdReq(sr, params...)
+		return refill(dhttp.NewHTTPRequestFromStdReq(sr, params...))
 	default:
 		req, err := dhttp.NewHTTPRequestFromUrl(r.Method, r.URI, rd, params...)
 		if err != nil {
 			return nil, err
 		}
 		decorate(req.Request)
-		return req, nil
+		return refill(req, nil)
 	}
 }
 
@@ -881,6 +893,10 @@ func runC17(w *W) {
 		g.nullPct = 0
 	}
 	req := genRequest(w, sch, o, bodyKind, g)
+	if len(req.Path) > 0 && t.Chance(1, 3, "req.refillparams") {
+		req.RefillParams = true
+		w.Count("path_params_refilled_by_set")
+	}
 	w.Logf("request:\n%s", req.describe())
 
 	// ---- oracle
